@@ -51,6 +51,7 @@ func (a *awareness) ApplyDelta(delta int) {
 		a.score = (a.max - 1)
 	}
 	final := a.score
+	a.vt(delta, initial, final)
 	a.Unlock()
 
 	if initial != final {
